@@ -124,4 +124,11 @@ theorem generated_at_system_time (c : Calendar) (hc : WF c) (before : Bool) (sec
     | none => exact absurd hd h2
     | some d => simp
 
+/-- the generated `Calendar::now()` — the clock's reading is a parameter of the generated function —
+is `at_system_time` of that reading: the asking calendar's date for the day the clock is in, whoever asked
+before -/
+theorem generated_now (c : Calendar) (hc : WF c) (before : Bool) (secs nanos : Int) (hs : 0 ≤ secs) :
+    Gen.calendarNow c (before, secs, nanos) = c.atSystemTime? before secs nanos := by
+  rw [Gen.calendarNow_eq]; exact (generated_at_system_time c hc before secs nanos hs).1
+
 end JV.C14
